@@ -1,9 +1,11 @@
 (* C07 -- clients return the complete reply however the transport fragments it.
 
    Model: ClientModel.client_do (Client.Do / SerialClient.Do).  A *segmentation* of a reply is a list
-   of (w, chunk): w empty reads that end with the read deadline, then a read returning the
-   non-empty chunk; [script_of] turns it into the script of the transport, [payload] is the
-   concatenation of the chunks.  The script may continue with anything after it ([tail]).
+   of (w, late, chunk): w empty reads that end with the read deadline, then a read returning the
+   non-empty chunk -- with a nil error, or (late = true) TOGETHER with os.ErrDeadlineExceeded, which
+   io.Reader allows; [script_of] turns it into the script of the transport, [payload] is the
+   concatenation of the chunks.  The script may continue with anything after it ([tail]).  All
+   theorems quantify over both ways of delivering every chunk.
 
    The full statement of the property,
 
@@ -164,10 +166,10 @@ Print Assumptions C07_fc23_times_out.
 (* TCP FC3, two registers, reply in three reads with empty reads in between, script goes on *)
 Definition ex_q : creq := rq false (RRead 3 1 0 2).
 Definition ex_p : resp := PBytes 3 1 4 [0x12; 0x34; 0x56; 0x78].
-Definition ex_chunks : list (nat * list N) :=
-  [(2%nat, firstn 5 (reply_bytes ex_q ex_p)); (0%nat, firstn 3 (skipn 5 (reply_bytes ex_q ex_p)));
-   (1%nat, skipn 8 (reply_bytes ex_q ex_p))].
-Definition ex_sc : script := plain (script_of ex_chunks ++ [quiet; timer_step false RTimeout]).
+Definition ex_chunks : list chunk :=
+  [(2%nat, false, firstn 5 (reply_bytes ex_q ex_p)); (0%nat, true, firstn 3 (skipn 5 (reply_bytes ex_q ex_p)));
+   (1%nat, false, skipn 8 (reply_bytes ex_q ex_p))].
+Definition ex_sc : script := plain (script_of ex_chunks ++ [quiet; timer_step false (RTimeout [])]).
 
 Example C07_hypotheses_satisfiable :
   framing_ok KTcp ex_q /\ exact_formula ex_q = true /\ resp_matches (q_req ex_q) ex_p /\
@@ -184,12 +186,12 @@ Qed.
 Example C07_example_result :
   fst (client_do (cfg_of KTcp) ex_sc (Some ex_q)) = OResp 7 ex_p.
 Proof. vm_compute. reflexivity. Qed.
-(* RTU FC16 over the serial client, byte by byte *)
+(* RTU FC16 over the serial client, byte by byte, every byte together with the deadline error *)
 Example C07_example_serial :
   let q := rq true (RWRegs 9 100 2 [0; 1; 0; 2]) in
   let p := PWMulti 16 9 100 2 in
   exact_formula q = true /\ resp_matches (q_req q) p /\
-  fst (client_do (cfg_of KSerial) (plain (script_of (map (fun b => (1%nat, [b])) (reply_bytes q p)))) (Some q))
+  fst (client_do (cfg_of KSerial) (plain (script_of (map (fun b => (1%nat, true, [b])) (reply_bytes q p)))) (Some q))
   = OResp 0 p.
 Proof. cbn zeta. repeat split; vm_compute; reflexivity. Qed.
 (* an exception reply cut in the middle *)
